@@ -51,7 +51,7 @@ check("C19", "model_checking", IMP + "; cgo layout oracle",
 
 check("C08", "model_checking",
       "explicit-state BFS over the real File + fragments with File.Render / RenderWithFile themselves in the operation alphabet; name-stability and repeatability invariant in every distinct state",
-      "All histories up to the depth bound of additions, renders (File.Render, File.GoString, fragment renders, a fragment render into a failing writer), placeholders filled later, one Block group used in two statements, late ImportName/ImportAlias (incl. dot and _), Anon, prefix and NoFormat are executed on the implementation; every state renders everything twice and compares with all names observed earlier in the history. A second BFS over file-level operations compares every state with a twin that was never rendered before; every construct x argument combination is rendered, its arguments changed in place, and rendered again against such a twin.",
+      "All histories up to the depth bound of additions, renders (File.Render, File.GoString, fragment renders, a fragment render into a failing writer, a File render into a writer that accepts the text and then reports a failure), placeholders filled later, one Block group used in two statements, late ImportName/ImportAlias (incl. dot and _), Anon, prefix and NoFormat are executed on the implementation; every state renders everything twice and compares with all names observed earlier in the history. A second BFS over file-level operations compares every state with a twin that was never rendered before; every construct x argument combination is rendered, its arguments changed in place, and rendered again against such a twin.",
       "Anon only on never-referenced paths; unused imports caused by fragment renders are allowed; longer histories are outside the bound.",
       "DESIGN.md §3 C08", "E2")
 check("C10", "fault_enumeration",
@@ -102,7 +102,7 @@ check("C01", "exploration",
       "Files with dot imports / a path imported twice are skipped and counted; gofmt damaging the reference program itself is attributed to gofmt and counted; deeper programs outside the corpus are outside the bound.",
       "DESIGN.md §3 C01", "E5+E1")
 check("C02", "exploration",
-      "exhaustive enumeration of 1- and 2-construct compositions over the whole reflected API with nonsensical arguments, all File-setting combinations, every single damage at every item of every list site of generated programs; twin oracle formatted == gofmt(raw of an identically built File), also under different map iteration orders",
+      "exhaustive enumeration of 1- and 2-construct compositions over the whole reflected API with nonsensical arguments, all File-setting combinations, every single damage at every item of every list site of generated programs, every text of length <= 4 over a comment alphabet as package / header comment over bodies that can close it; twin oracle formatted == gofmt(raw of an identically built File), also under different map iteration orders",
       "All compositions within the stated size are built twice (formatted / NoFormat twin) on the implementation and judged; both outcome classes (valid, error) are populated.",
       "Documented deliberate panics are outside the alphabet; a fragment that is a complete file by itself is tolerated for Statement.Render.",
       "DESIGN.md §3 C02", "E1+E5+E4")
